@@ -40,7 +40,7 @@ LEAN = {"module": "Pygom.Props.C05",
         "required": ["Pygom.C05.min_of_indep_exp", "Pygom.C05.first_clock", "Pygom.C05.step_law", "Pygom.C05.exp_scale",
                      "Pygom.C05.model_step_is_first_min", "Pygom.C05.model_step_time", "Pygom.C05.model_step_law",
                      "Pygom.C05.model_choice_law", "Pygom.C05.firstMin_cast", "Pygom.C05.first_min_iff",
-                     "Pygom.C05.stepProbs_sum_to_one", "Pygom.C05.finalSizePMF_sums_to_one"]}
+                     "Pygom.C05.stepProbs_sum_to_one", "Pygom.C05.finalSizePMF_sums_to_one", "Pygom.C05.finalSizePMF_nonneg"]}
 BUDGET = {"quick": {"identity": 16, "pairs": 25, "law_draws": 20000, "replay": 48, "chain": 32, "sir": 16, "runs": 6000},
           "thorough": {"identity": 64, "pairs": 100, "law_draws": 200000, "replay": 640, "chain": 160, "sir": 80,
                        "runs": 20000, "max_steps": 2000}}
